@@ -433,6 +433,10 @@ def build_fn(unit, item, imp, fnitem, spec: Fn, cover=False):
         applied.append(("R1", "mut self", f"let mut self_ = self; ({n} uses renamed)"))
     # R2: debug assertions
     body = _remove_macro_stmts(body, ["debug_assert", "debug_assert_eq", "debug_assert_ne"], applied)
+    # R2c: statements guarded by the verification hook cfg are not part of the shipped (guard off) code
+    body, n2c = _code_sub(body, r'#\[cfg\(decaf377_verif\)\]\s*let[^;]*;', '')
+    if n2c:
+        applied.append(("R2", "#[cfg(decaf377_verif)] let ..;", f"removed x{n2c} (hook, off by default)"))
     # R14b: a `const` item local to a fn body becomes a `let` (same value; Verus consts cannot read exec consts)
     body, n14 = _code_sub(body, r'\bconst\s+([A-Z_]\w*)\s*:', r'let \1:')
     if n14:
